@@ -1029,8 +1029,14 @@ class Env(object):
         os.makedirs(self.inc, exist_ok=True)
         self.cb = cbuild.CBuild(os.path.join(self.dir, 'build')).compile_all()
         self.compiler = self.cb.compiler()
-        self.walker = self.cb.cdriver('c15_walk')
+        self.walker = None
+        self.walker_error = None
+        try:
+            self.walker = self.cb.cdriver('c15_walk')
+        except HarnessError as e:
+            self.walker_error = str(e)
         self.states = None
+        self.states_error = None
         try:
             # the state tracer #includes girparser.c, so it is linked without girparser.o
             cb2 = copy.copy(self.cb)
@@ -1057,6 +1063,8 @@ class Env(object):
         return d
 
     def walk(self, typelib, ns, dirs):
+        if not self.walker:
+            return None, {'error': 'no-walker', 'message': self.walker_error}, ''
         p = subprocess.run([self.walker, typelib, ns] + list(dirs) + [self.inc], stdout=subprocess.PIPE,
                            stderr=subprocess.PIPE, timeout=120)
         out = p.stdout.decode('utf-8', 'replace')
@@ -1073,11 +1081,14 @@ class Env(object):
         args = [self.states, gir_path] + list(extra_inc) + [self.inc]
         p = subprocess.run(args, stdout=subprocess.PIPE, stderr=subprocess.PIPE, timeout=120)
         rows = []
+        result = None
         for line in p.stdout.decode('utf-8', 'replace').splitlines():
             f = line.split('\t')
             if len(f) >= 6 and f[0] in ('S', 'E'):
-                rows.append((f[0], f[1], f[2], f[3], int(f[4]), int(f[5])))
-        return rows
+                rows.append((f[0], f[1], int(f[2]), int(f[3]), int(f[4]), int(f[5])))
+            elif len(f) >= 2 and f[0] == 'R':
+                result = f[1]
+        return rows, result, p.returncode, p.stderr.decode('utf-8', 'replace')
 
 
 _scan_patched = [False]
@@ -1619,3 +1630,588 @@ def classify_compiler(rc, err, root, state_names):
         msg = re.sub(r'\d\d:\d\d:\d\d\.\d+', '', msg)
         out.append(('compiler:stderr:%s' % re.sub(r'\d+', 'N', msg)[:120], 'g-ir-compiler wrote to stderr: %s' % err[-400:]))
     return out
+
+
+# ---------------------------------------------------------------------------------------------
+# one case through the real pair
+# ---------------------------------------------------------------------------------------------
+DOCNS = 'http://www.gtk.org/introspection/doc/1.0'
+
+
+def atoi(s):
+    """C atoi: optional white space, optional sign, leading digits; anything else is 0"""
+    m = re.match(r'[ \t\n\v\f\r]*([+-]?\d+)', s or '')
+    return int(m.group(1)) if m else 0
+
+
+def gir_events(text):
+    """the element events GMarkup delivers for a GIR text: [['S', name, hidden] | ['E', name]] with
+    the raw (prefixed) element names; hidden = what introspectable_prelude computes from the attributes"""
+    from xml.parsers import expat
+    evs = []
+    p = expat.ParserCreate()
+
+    def start(name, attrs):
+        intro = attrs.get('introspectable')
+        hidden = (intro is not None and atoi(intro) == 0) or ('shadowed-by' in attrs)
+        evs.append(['S', name, bool(hidden)])
+
+    def end(name):
+        evs.append(['E', name])
+    p.StartElementHandler = start
+    p.EndElementHandler = end
+    p.Parse(text.encode('utf-8'), True)
+    return evs
+
+
+def register_pending(ctx):
+    for key, what in PENDING_FINDINGS.items():
+        if ctx.is_known(key) is None:
+            ctx.known.append({'property': 'C15', 'status': 'known', 'key': key, 'what': what, 'pending': True})
+
+
+def ns_of(text):
+    m = re.search(r'<namespace\s+name="([^"]+)"\s+version="([^"]+)"', text)
+    if not m:
+        m1 = re.search(r'<namespace\b[^>]*\bname="([^"]+)"', text)
+        m2 = re.search(r'<namespace\b[^>]*\bversion="([^"]+)"', text)
+        return (m1.group(1) if m1 else 'X'), (m2.group(1) if m2 else '0')
+    return m.group(1), m.group(2)
+
+
+STANDIN_NAMESPACES = ('GLib', 'GObject', 'Gio', 'cairo')
+
+
+def process(env, case):
+    """case: {'origin', 'name', 'gir'} -> the case, filled with what the real compiler / repository API did.
+    Thread-safe (own directory)."""
+    res = dict(case)
+    text = case['gir']
+    ns, ver = ns_of(text)
+    res['ns'], res['version'] = ns, ver
+    d = env.casedir()
+    gpath = os.path.join(d, '%s-%s.gir' % (ns, ver))
+    tpath = os.path.join(d, '%s-%s.typelib' % (ns, ver))
+    with open(gpath, 'w', encoding='utf-8') as f:
+        f.write(text)
+    res['gir_path'] = gpath
+    extra = list(case.get('includedirs', []))
+    try:
+        rc, out, err = env.compile(gpath, tpath, extra)
+    except subprocess.TimeoutExpired:
+        rc, out, err = 'timeout', '', 'g-ir-compiler did not finish within 120 s'
+    res['rc'], res['err'] = rc, err
+    res['walk'] = None
+    if rc == 0 and os.path.exists(tpath):
+        try:
+            wrc, tl, werr = env.walk(tpath, ns, [d] + extra)
+        except subprocess.TimeoutExpired:
+            wrc, tl, werr = 'timeout', {'error': 'timeout', 'message': ''}, ''
+        res['walk_rc'], res['walk'], res['walk_err'] = wrc, tl, werr
+    if case.get('trace', True) and env.states:
+        try:
+            res['trace'] = env.trace(gpath, extra)
+        except subprocess.TimeoutExpired:
+            res['trace'] = None
+    return res
+
+
+def judge_case(res, state_names):
+    """the statement oracle on one processed case -> ('outside', reason) | ('judged', [(key, message)])"""
+    text = res['gir']
+    try:
+        root = ET.fromstring(text.encode('utf-8'))
+    except ET.ParseError as e:
+        return 'judged', [('scanner:gir-not-well-formed', 'the scanner wrote XML that does not parse: %s' % e)]
+    rc, err = res['rc'], res['err']
+    if rc == 'timeout':
+        return 'judged', [('compiler:timeout', err)]
+    probs = list(classify_compiler(rc, err, root, state_names))
+    if res.get('standin_deps') and rc != 0 and rc > 0:
+        # the dependencies of this GIR are stand-ins written for this harness: a reference into one of them that the
+        # stand-in lacks is a gap of the harness, not of the compiler ("whose dependencies are available")
+        m = re.search(r"type reference '((?:%s)\.[^']+)' not found|Type reference '((?:%s)\.[^']+)' not found"
+                      % ('|'.join(STANDIN_NAMESPACES), '|'.join(STANDIN_NAMESPACES)), err)
+        if m or re.search(r"(Could not find GIR file|Failed to parse included gir) '?(%s)" % '|'.join(STANDIN_NAMESPACES), err):
+            return 'outside', 'standin-gap'
+    if rc == 0:
+        tl = res.get('walk')
+        wrc = res.get('walk_rc')
+        if tl is None:
+            probs.append(('compiler:no-typelib', 'g-ir-compiler exited 0 without writing the typelib'))
+        elif tl.get('error') == 'no-walker':
+            pass
+        elif tl.get('error') in ('validate', 'new', 'map'):
+            probs.append(('typelib:does-not-validate', 'the typelib does not validate: %s' % tl.get('message')))
+        elif tl.get('error') == 'load':
+            if res.get('standin_deps') and re.search(r"Typelib file for namespace '(%s)'" % '|'.join(STANDIN_NAMESPACES), str(tl.get('message'))):
+                return 'outside', 'standin-gap'
+            probs.append(('typelib:does-not-load', 'the repository refuses the typelib: %s' % tl.get('message')))
+        elif tl.get('error'):
+            crashed = isinstance(wrc, int) and wrc < 0
+            probs.append(('api:%s' % ('crash' if crashed else tl.get('error')),
+                          'walking the typelib through the repository API %s: %s %s'
+                          % ('crashed (signal %d)' % -wrc if crashed else 'failed', tl.get('message'), (res.get('walk_err') or '')[-300:])))
+        else:
+            for k, msg in compare(root, tl).items:
+                probs.append((k, msg))
+    return 'judged', probs
+
+
+def writer_only_shapes(root):
+    """hypothesis `writerOnlyOffences` of Props/C15.lean: no scanner output has these"""
+    out = []
+    for i in root.iter(qn('interface')):
+        for c in i:
+            if local(c.tag) in ('record', 'union', 'field'):
+                out.append('<interface name=%r> has a <%s> child' % (i.get('name'), local(c.tag)))
+    return out
+
+
+def trace_compare(res, model, state_names):
+    """real parser trace vs model trace -> None | description of the disagreement"""
+    tr = res.get('trace')
+    if not tr or model is None:
+        return None
+    rows, result, rc, err = tr
+    real = []
+    for kind, el, st, prev, depth, stack in rows:
+        real.append([state_names[st] if 0 <= st < len(state_names) else str(st),
+                     state_names[prev] if 0 <= prev < len(state_names) else str(prev), depth, stack])
+    mrows = model['rows']
+    if result != 'ok' and real and len(real) <= len(mrows) + 1:
+        # the real parser stopped with a GError: the handler that set it still got its row printed (GMarkup stops
+        # after the handler returns), whatever it did to the state before failing — not comparable
+        real = real[:-1]
+    n = min(len(real), len(mrows))
+    for i in range(n):
+        if real[i] != mrows[i]:
+            return 'event %d (%s %s): real parser %r, model %r' % (i, rows[i][0], rows[i][1], real[i], mrows[i])
+    if model['error'] is None:
+        # the model knows the state machine only: the real parser may stop earlier (a semantic error), never later
+        if len(real) > len(mrows):
+            return 'real parser delivered %d events, model %d' % (len(real), len(mrows))
+        return None
+    # the model stopped with an error at event n: the real parser must stop there too (abort: no row; GError: one more row)
+    if len(real) > len(mrows):
+        return 'model stops at event %d (%s), the real parser goes on (%d events)' % (len(mrows), model['error'], len(real))
+    return None
+
+
+# ---------------------------------------------------------------------------------------------
+# mutants for the state-machine correspondence (NOT scanner outputs: never judged by the oracle)
+# ---------------------------------------------------------------------------------------------
+def mutate_gir(rng, text):
+    for prefix, uri in (('', CORE), ('c', CNS), ('glib', GLIBNS), ('doc', DOCNS)):
+        ET.register_namespace(prefix, uri)
+    try:
+        root = ET.fromstring(text.encode('utf-8'))
+    except ET.ParseError:
+        return None
+    nse = root.find(qn('namespace'))
+    if nse is None:
+        return None
+    els = [e for e in nse.iter()][1:]
+    if not els:
+        return None
+    parents = {c: p for p in root.iter() for c in p}
+    e = rng.choice(els)
+    how = rng.choice(['rename', 'hide', 'shadow', 'graft', 'wrap', 'unhide', 'rename-known'])
+    if how == 'rename':
+        e.tag = qn(rng.choice(['frobnicate', 'c:thing', 'glib:thing', 'x']))
+    elif how == 'rename-known':
+        e.tag = qn(rng.choice(['record', 'union', 'field', 'callback', 'function', 'method', 'type', 'array', 'attribute', 'member',
+                               'constant', 'property', 'parameters', 'parameter', 'return-value', 'doc', 'source-position',
+                               'glib:signal', 'glib:boxed', 'virtual-method', 'implements', 'prerequisite', 'instance-parameter',
+                               'function-macro', 'docsection', 'varargs', 'enumeration', 'bitfield', 'class', 'interface', 'alias',
+                               'constructor', 'discriminator', 'include', 'package', 'c:include']))
+    elif how == 'hide':
+        e.set('introspectable', rng.choice(['0', '0', 'no', '', '00', '1', ' 0', '-0']))
+    elif how == 'unhide':
+        for x in els:
+            if x.get('introspectable') == '0':
+                del x.attrib['introspectable']
+                break
+    elif how == 'shadow':
+        e.set('shadowed-by', 'other')
+    elif how == 'graft':
+        src = rng.choice(els)
+        if src is not e and e not in list(src.iter()):
+            e.append(copy.deepcopy(src))
+    elif how == 'wrap':
+        p = parents.get(e)
+        if p is not None:
+            idx = list(p).index(e)
+            w = ET.Element(qn(rng.choice(['frobnicate', 'doc', 'record', 'field', 'function'])))
+            p.remove(e)
+            w.append(e)
+            p.insert(idx, w)
+    return '<?xml version="1.0"?>\n' + ET.tostring(root, encoding='unicode')
+
+
+# ---------------------------------------------------------------------------------------------
+# corpus
+# ---------------------------------------------------------------------------------------------
+def load_corpus():
+    cpath = os.path.join(VERIF, 'corpus', 'C15')
+    out = []
+    if os.path.isdir(cpath):
+        for fn in sorted(os.listdir(cpath)):
+            if fn.endswith('.json'):
+                with open(os.path.join(cpath, fn)) as f:
+                    for c in json.load(f):
+                        c['file'] = fn
+                        out.append(c)
+    return out
+
+
+def expected_girs(env):
+    """tests/scanner/*-expected.gir: scanner outputs shipped with the tree; their GObject/Gio/GLib includes
+    are satisfied by the stand-ins, Utility by the expected GIR of Utility itself"""
+    tdir = os.path.join(REPO, 'tests', 'scanner')
+    out = []
+    if not os.path.isdir(tdir):
+        return out
+    incdir = os.path.join(env.dir, 'expected-inc')
+    os.makedirs(incdir, exist_ok=True)
+    names = sorted(fn for fn in os.listdir(tdir) if fn.endswith('-expected.gir'))
+    for fn in names:
+        with open(os.path.join(tdir, fn), encoding='utf-8') as f:
+            text = f.read()
+        with open(os.path.join(incdir, fn.replace('-expected', '')), 'w', encoding='utf-8') as f:
+            f.write(text)
+        out.append({'origin': 'expected', 'name': fn, 'gir': text, 'includedirs': [incdir], 'standin_deps': True})
+    # the typelibs of the expected GIRs other expected GIRs include (Utility) next to them, for the repository API
+    included = set(re.findall(r'<include name="([^"]+)"', ''.join(c['gir'] for c in out)))
+    for c in out:
+        ns, ver = ns_of(c['gir'])
+        if ns in included:
+            try:
+                env.compile(os.path.join(incdir, '%s-%s.gir' % (ns, ver)), os.path.join(incdir, '%s-%s.typelib' % (ns, ver)), [incdir])
+            except subprocess.TimeoutExpired:
+                pass
+    return out
+
+
+def replay_of(case, key=None):
+    r = {'kind': 'cfg' if case.get('cfg') is not None else 'gir', 'origin': case.get('origin'), 'name': case.get('name'),
+         'finding': key,
+         'how': 'cfg: run the scanner pipeline (harness/scanpipe.py) on the description with the stand-in dependency GIRs of '
+                'harness/c15.py; then g-ir-compiler --includedir <stand-ins> -o X.typelib <Ns>-<ver>.gir, then '
+                'cdrivers/c15_walk X.typelib <Ns> and compare with the GIR'}
+    if case.get('cfg') is not None:
+        r['cfg'] = case['cfg']
+    g = case.get('gir') or ''
+    r['gir'] = g if len(g) < 300000 else g[:3000] + '\n... (%d bytes, %s)' % (len(g), case.get('name'))
+    if case.get('standin_deps'):
+        r['standin_deps'] = True
+    return r
+
+
+def shrink_cfg(env, case, key, state_names, budget):
+    """failing-input search around a failure: drop declarations / comment blocks while the same key persists"""
+    cfg = copy.deepcopy(case['cfg'])
+    best = dict(case, cfg=cfg)
+    changed = True
+    while changed and budget[0] > 0:
+        changed = False
+        for field in ('decls', 'comments'):
+            i = 0
+            while i < len(best['cfg'].get(field, [])) and budget[0] > 0:
+                cand = copy.deepcopy(best['cfg'])
+                del cand[field][i]
+                budget[0] -= 1
+                gir, nwarn, why = scan_cfg(cand, env)
+                ok = False
+                if gir is not None:
+                    r = process(env, {'origin': 'search', 'name': 'shrink', 'gir': gir, 'cfg': cand, 'trace': False})
+                    verdict, probs = judge_case(r, state_names)
+                    ok = verdict == 'judged' and any(k == key for k, _ in probs)
+                if ok:
+                    best = dict(best, cfg=cand, gir=gir)
+                    changed = True
+                else:
+                    i += 1
+    return best
+
+
+def run(ctx):
+    import concurrent.futures
+    cnt = Counter()
+    register_pending(ctx)
+    ctx.prove(['gen_girvocab_c', 'gen_girvocab_py'], ['GIVerif.Props.C15'], 'GIVerif.Props.C15')
+    ctx.log('proofs rebuilt and audited')
+    rng = ctx.rng
+
+    # ---- the contract as the compiled model computes it on the string tables + the coding of the tables
+    contract = None
+    try:
+        contract = ctx.driver.call('c15.contract')
+    except HarnessError as e:
+        ctx.broken.append('model driver failed: %s' % str(e)[-400:])
+    state_names = contract['states'] if contract else []
+    if contract:
+        bad = sorted(k for k, v in contract['tables_coded'].items() if not v)
+        if bad:
+            ctx.broken.append('the number-coded tables the proofs are evaluated on are not the coding of the string tables: %s' % bad)
+        for s_ in contract['shape'][:3]:
+            ctx.broken.append('translator: source shape not understood: %s' % s_)
+        if not contract['closed']:
+            ctx.broken.append('contract: the reachable contexts are not closed')
+        cnt.hit('contract:offences', len(contract['offences']))
+        cnt.hit('contract:unfetched', len(contract['unfetched']))
+        cnt.hit('contract:off_values', len(contract['off_values']))
+
+    try:
+        env = Env(ctx)
+    except HarnessError as e:
+        ctx.broken.append('the C code under verification no longer builds: %s' % str(e)[-600:])
+        ctx.coverage.update({'evaluations': 0, 'distinct_nontrivial': 0, 'rule': 'C build failed', 'samples': []})
+        return
+    if not env.walker:
+        ctx.broken.append('cdrivers/c15_walk.c no longer builds against /repo (it reads UnionBlob.deprecated through the private '
+                          'GIRealInfo): %s' % str(env.walker_error)[-300:])
+    if not env.states:
+        ctx.broken.append('correspondence c15.trace: cdrivers/c15_states.c no longer builds — start_element_handler / '
+                          'end_element_handler / ParseContext / markup_parser of girparser.c no longer exist or have changed: %s'
+                          % str(env.states_error)[-300:])
+    if not state_names:
+        # without the driver the state names come from the source directly
+        try:
+            with open(os.path.join(REPO, 'girepository', 'girparser.c'), encoding='utf-8') as f:
+                m = re.search(r'typedef enum\s*\{([^}]*)\}\s*ParseState;', re.sub(r'/\*.*?\*/', '', f.read(), flags=re.S))
+            state_names = re.findall(r'STATE_(\w+)', m.group(1)) if m else []
+        except OSError:
+            state_names = []
+    ctx.log('C code built')
+
+    # ---- cases: corpus, expected GIRs of the tree, generated descriptions through the real scanner
+    cases = []
+    corpus = load_corpus()
+    for c in corpus:
+        if c.get('cfg') is not None:
+            cases.append({'origin': 'corpus', 'name': c.get('name'), 'cfg': c['cfg'], 'expect': c.get('expect')})
+        else:
+            cases.append({'origin': 'corpus', 'name': c.get('name'), 'gir': c['gir'], 'expect': c.get('expect'),
+                          'standin_deps': True})
+    cases += expected_girs(env)
+    n_gen = ctx.n(70, 1500)
+    feature_hits = {}
+    for i in range(n_gen):
+        boost = None
+        if i % 10 == 9:
+            # every tenth namespace concentrates on one of the rarer constructs
+            k = sorted(Gen.RARE)[(i // 10) % len(Gen.RARE)]
+            boost = {k: 0.6}
+        g = Gen(rng, i, boost)
+        cfg = g.build()
+        cases.append({'origin': 'generated', 'name': 'g%d' % i, 'cfg': cfg, 'features': sorted(g.features)})
+        for f_ in g.features:
+            feature_hits[f_] = feature_hits.get(f_, 0) + 1
+
+    # the scanner runs in-process (not thread-safe: global MessageLogger), the C side in parallel
+    ready = []
+    for c in cases:
+        if c.get('gir') is None:
+            gir, nwarn, why = scan_cfg(c['cfg'], env)
+            c['scanner_warnings'] = nwarn
+            if gir is None:
+                cnt.hit('outside:scanner-refused')
+                cnt.hit('outside:%s' % why.split(':')[0])
+                c['refused'] = why
+                continue
+            c['gir'] = gir
+        ready.append(c)
+    ctx.log('scanner ran on %d descriptions (%d refused)' % (len([c for c in cases if c.get('cfg') is not None]),
+                                                            len([c for c in cases if c.get('refused')])))
+    with concurrent.futures.ThreadPoolExecutor(max_workers=8) as ex:
+        results = list(ex.map(lambda c: process(env, c), ready))
+    ctx.log('compiled / walked / traced %d GIRs' % len(results))
+
+    # ---- the statement oracle, every case
+    seen = set()
+    new_failures = []
+    n_judged = 0
+    for r in results:
+        cnt.hit('case:%s' % r['origin'])
+        verdict, probs = judge_case(r, state_names)
+        if verdict == 'outside':
+            cnt.hit('outside:%s' % probs)
+            continue
+        n_judged += 1
+        clean = not probs
+        cnt.hit('judged:%s' % ('clean' if clean else 'fails'))
+        cnt.hit('compiler:%s' % ('ok' if r['rc'] == 0 and not r['err'].strip() else 'warns' if r['rc'] == 0 else 'fails'))
+        cnt.case(['gir', r['gir']], nontrivial=(r['rc'] == 0))
+        try:
+            root = ET.fromstring(r['gir'].encode('utf-8'))
+            for e in root.iter():
+                cnt.hit('element:%s' % local(e.tag))
+                if e.get('introspectable') == '0':
+                    cnt.hit('hidden:%s' % local(e.tag))
+            if r['origin'] != 'expected' or True:
+                for w in writer_only_shapes(root)[:1]:
+                    if 'writer-only' not in seen:
+                        seen.add('writer-only')
+                        ctx.broken.append('hypothesis writerOnlyOffences of Props/C15.lean no longer holds: a scanner output has %s (%s %s)'
+                                          % (w, r['origin'], r['name']))
+        except ET.ParseError:
+            pass
+        for key, msg in probs:
+            cnt.hit('finding:%s' % key)
+            if key in seen:
+                continue
+            seen.add(key)
+            what = '%s [%s %s]' % (msg, r['origin'], r['name'])
+            if key in PENDING_FINDINGS:
+                ctx.report_failure(key, PENDING_FINDINGS[key] + ' — e.g. ' + what, replay_of(r, key))
+            else:
+                new_failures.append((key, what, r))
+        exp = r.get('expect')
+        if exp is not None:
+            got = sorted(set(k for k, _ in probs))
+            if sorted(exp) != got:
+                ctx.broken.append('corpus case %s: expected findings %s, got %s' % (r['name'], sorted(exp), got))
+
+    # ---- failing-input search around new failures: shrink the description while the failure persists
+    budget = [ctx.n(60, 400)]
+    for key, what, r in new_failures[:6]:
+        small = r
+        if r.get('cfg') is not None and budget[0] > 0:
+            try:
+                small = shrink_cfg(env, r, key, state_names, budget)
+            except Exception as e:  # noqa: the search must not hide the failure itself
+                small = r
+            cnt.hit('search:shrunk')
+        ctx.report_failure(key, what, replay_of(small, key))
+    for key, what, r in new_failures[6:]:
+        ctx.report_failure(key, what, replay_of(r, key))
+
+    # ---- correspondence: the Lean state machine against the real start/end_element_handler
+    n_trace = 0
+    n_diff = 0
+    if env.states and contract is not None:
+        trace_cases = [r for r in results if r.get('trace')]
+        n_mut = ctx.n(120, 2500)
+        muts = []
+        pool = [r for r in results if r['origin'] in ('generated', 'corpus') and r['rc'] in (0, 1)]
+        for k in range(n_mut):
+            if not pool:
+                break
+            src = rng.choice(pool)
+            t = mutate_gir(rng, src['gir'])
+            if t is not None:
+                muts.append({'origin': 'mutant', 'name': 'm%d-of-%s' % (k, src['name']), 'gir': t})
+
+        def trace_only(c):
+            ns, ver = ns_of(c['gir'])
+            d = env.casedir()
+            gp = os.path.join(d, '%s-%s.gir' % (ns, ver))
+            with open(gp, 'w', encoding='utf-8') as f:
+                f.write(c['gir'])
+            try:
+                c['trace'] = env.trace(gp, [])
+            except subprocess.TimeoutExpired:
+                c['trace'] = None
+            return c
+        with concurrent.futures.ThreadPoolExecutor(max_workers=8) as ex:
+            muts = list(ex.map(trace_only, muts))
+        trace_cases += [m for m in muts if m.get('trace')]
+        reqs = []
+        for r in trace_cases:
+            try:
+                reqs.append({'op': 'c15.trace', 'events': gir_events(r['gir'])})
+            except Exception:  # noqa: expat refuses the text: GMarkup will too, nothing to compare
+                reqs.append({'op': 'c15.trace', 'events': []})
+        try:
+            answers = ctx.driver.batch(reqs)
+        except HarnessError as e:
+            ctx.broken.append('model driver failed: %s' % str(e)[-400:])
+            answers = []
+        for r, m in zip(trace_cases, answers):
+            n_trace += 1
+            d = trace_compare(r, m, state_names)
+            real_rows = r['trace'][0]
+            cnt.hit('trace:events', len(m['rows']))
+            cnt.hit('trace:%s:%s' % (r['origin'], 'model-error' if m['error'] else
+                                     'real-stopped-early' if len(real_rows) < len(m['rows']) else 'complete'))
+            for row in m['rows']:
+                cnt.hit('trace:state:%s' % row[0])
+            if d is not None:
+                n_diff += 1
+                if n_diff <= 3:
+                    ctx.broken.append('correspondence c15.trace differs (%s %s): %s' % (r['origin'], r['name'], d))
+        cnt.hit('trace:cases', n_trace)
+        cnt.hit('trace:disagreements', n_diff)
+    ctx.log('state machine traced on %d documents, %d disagreements' % (n_trace, n_diff))
+
+    dist = {k: v for k, v in cnt.counts.items()}
+    dist.update({'feature:' + k: v for k, v in sorted(feature_hits.items())})
+    samples = []
+    for r in results[:1] + [x for x in results if x['origin'] == 'generated'][:2]:
+        samples.append({'origin': r['origin'], 'name': r['name'], 'rc': r['rc'], 'stderr': r['err'][-200:], 'gir_head': r['gir'][:700]})
+    ctx.coverage.update({
+        'evaluations': len(results) + n_trace,
+        'distinct_nontrivial': cnt.n_distinct(),
+        'rule': 'corpus (one description per known finding + edge cases), the expected GIRs of tests/scanner, then seeded API '
+                'descriptions (enums/bitfields, constants, aliases, callbacks, records/unions with nested and anonymous members, '
+                'boxed types, functions/methods/constructors with annotated parameters, classes and interfaces with properties, '
+                'signals, vfuncs through a generated runtime dump, shadowing pairs, macros, doc sections) through the REAL scanner '
+                'pipeline; every GIR through the REAL g-ir-compiler and the repository API (cdrivers/c15_walk.c); oracle from the '
+                'statement: exit 0, empty stderr, validates, loads, every introspectable element present with the GIR\'s flags, '
+                'non-introspectable ones absent. State machine: real start/end_element_handler (cdrivers/c15_states.c) against the '
+                'Lean model on every GIR and on one-edit mutants. non-trivial = compiled; distinct by GIR text.',
+        'samples': samples,
+        'distribution': dist,
+        'corpus_cases': len(corpus),
+        'judged': n_judged,
+        'exhaustive': False,
+        'pending_findings': sorted(PENDING_FINDINGS),
+        'contract': {k: contract[k] for k in ('offences', 'unfetched', 'off_values', 'not_in_schema')} if contract else None,
+    })
+    ctx.assumptions.extend([
+        'the C lexer/parser of the scanner is not run: API descriptions enter the pipeline as the symbol stream it would deliver (scanpipe)',
+        'GLib/GObject/Gio are stand-in GIRs written for this harness (the real ones are built by meson); expected GIRs of '
+        'tests/scanner that need more of them than the stand-ins have are counted outside:standin-gap',
+        'the GIR -> typelib mapping is validated by decode-and-compare through the public repository API, not proved',
+        'the vocabulary contract is proved on number-coded grouped tables; that they are the coding of the string tables is '
+        'evaluated by the compiled driver on every run (tables_coded)',
+        'flags compared are those the repository API exposes; c:type, doc, version, stability and other GIR-only data are not in a typelib',
+        'hypothesis of the contract theorems: no scanner output has fields/records/unions inside <interface> (checked on every GIR)',
+    ])
+
+
+def replay(ctx, rep):
+    register_pending(ctx)
+    r = rep.get('replay') or {}
+    if r.get('kind') not in ('cfg', 'gir'):
+        print('nothing to replay (the failure was a proof / correspondence break): %r' % (rep.get('no_longer_checks'),))
+        return 2
+    env = Env(ctx)
+    try:
+        state_names = ctx.driver.call('c15.contract')['states']
+    except HarnessError:
+        state_names = []
+    case = {'origin': 'replay', 'name': r.get('name'), 'standin_deps': r.get('standin_deps', False)}
+    if r['kind'] == 'cfg':
+        gir, nwarn, why = scan_cfg(r['cfg'], env)
+        if gir is None:
+            print('the scanner refuses the description: %s' % why)
+            return 0
+        case['gir'], case['cfg'] = gir, r['cfg']
+    else:
+        case['gir'] = r['gir']
+    res = process(env, case)
+    print('g-ir-compiler rc=%r stderr=%s' % (res['rc'], res['err'].strip()[-400:]))
+    verdict, probs = judge_case(res, state_names)
+    if verdict == 'outside':
+        print('outside the property: %s' % probs)
+        return 0
+    hit = False
+    for key, msg in probs:
+        print('FAILS %s: %s' % (key, msg[:500]))
+        hit = True
+    want = r.get('finding')
+    if want:
+        print('finding %s %s' % (want, 'REPRODUCED' if any(k == want for k, _ in probs) else 'not reproduced'))
+    return 1 if hit else 0
